@@ -15,7 +15,8 @@ EXPLANATION = (
     "poison messages; (R4) every Message.acknowledge call site passes multiple=False; (R5) the join holds the id before it can "
     "return 'pending'; (R6) every pending_requests/cancellers/orphaned_responses insertion has its removal on each completion "
     "path, before the callback runs. Not decided: the drain clause at quiescence and the liveness clause under arbitrary "
-    "interleavings.")
+    "interleavings."
+    ' (R12) every handler of dispatch that acknowledges the delivery itself also forgets its entry in unacknowledged_messages; (R13) the retention timer of an orphaned reply acknowledges the reply retained when it fires (data-derived from orphaned_responses), not the message captured when it was armed.')
 RULE_TEXT = ("obligation = one (entry, rule) pair for the path rules (all CFG paths of the entry, fixpoint over a finite domain) or one "
              "call/store site for the site rules; non-trivial = distinct (rule, site)")
 
